@@ -139,6 +139,25 @@ func (e *C10) Run(c *core.Ctx, idx int) {
 	for i, j := range pm {
 		sh[i] = segs[j]
 	}
+	if len(sh) > 1 && r.Chance(1, 4) {
+		// alignment: a COM segment in front is sized so that the marker of a randomly chosen later
+		// segment starts 0..70 bytes before a 4 KiB boundary of the stream (where a 4 KiB buffered
+		// reader has only that much left before it must refill)
+		k := r.Range(1, len(sh)-1)
+		off := 2
+		for _, sg := range sh[:k] {
+			off += 4 + len(sg.Payload)
+		}
+		want := 4096 - r.Intn(71)
+		pad := ((want-(off+4))%4096 + 4096) % 4096
+		com := gen.Seg{Marker: 0xFE, Payload: gen.HostilePayload(r, pad), Kind: "other"}
+		for i := range com.Payload {
+			if com.Payload[i] == 0xFF {
+				com.Payload[i] = 0x20
+			}
+		}
+		sh = append([]gen.Seg{com}, sh...)
+	}
 	j := gen.BuildJPEG(r, sh, r.Range(64, 300))
 	// ---- expected callbacks
 	var want []gen.Seg
